@@ -49,11 +49,10 @@ def pdig(p):
     return h.hexdigest()
 
 
-def psf(p):
+def psf(p, dx=DX):
     import lentil
     w = lentil.Wavefront(WL) * p
-    du = WL * Z / (p.pixelscale[0] * p.shape[0]) * (p.shape[0] * p.pixelscale[0]) / (24 * DX) / 3     # fixed: depends on DX*24 only
-    du = WL * Z / (24 * DX) / 3
+    du = WL * Z / (24 * dx) / 3            # fixed output sampling: depends on the original aperture size 24*dx only
     return lentil.propagate_dft(w, du, shape=(16, 16), oversample=2).intensity
 
 
@@ -70,9 +69,10 @@ def second_moment(amp, ps):
 
 def chk(case, acc, seed):
     shape, seg, s, via = tuple(case['shape']), case['seg'], case['scale'], case['via']
-    p = plane(shape, seg, seed, amp_kind=case.get('amp', 'real'))
+    DX = case.get('dx', globals()['DX'])           # the plane's own sampling: millimetres by default, microns / nanometres as variants
+    p = plane(shape, seg, seed, pixelscale=DX, amp_kind=case.get('amp', 'real'))
     if case.get('used_first'):
-        psf(p)                      # the plane has already been used in a propagation before it is resampled
+        psf(p, DX)                      # the plane has already been used in a propagation before it is resampled
     d0 = pdig(p)
     try:
         q = p.rescale(s) if via == 'rescale' else p.resample(DX / s)
@@ -139,7 +139,7 @@ def chk(case, acc, seed):
         if abs(p1 / p0 - 1) > 0.01:
             acc.violation(f'{via}:power:{kind}', case, f'transmitted power {p1} vs {p0} (ratio {p1 / p0:.5f})')
         try:
-            I0, I1 = psf(p), psf(q)
+            I0, I1 = psf(p, DX), psf(q, DX)
             l2 = float(np.linalg.norm(I1 - I0) / np.linalg.norm(I0))
             acc.cls('image-l2<=%g' % (10.0 ** math.ceil(math.log10(max(l2, 1e-9)))))
             if l2 > 0.02:
@@ -247,6 +247,11 @@ def t_shape(arg, acc):
         for via in ('rescale', 'resample'):
             chk({'kind': 'resample', 'shape': arg['shape'], 'seg': 'intmask', 'scale': s, 'via': via}, acc, arg['seed'])
             chk({'kind': 'resample', 'shape': arg['shape'], 'seg': 'mono', 'scale': s, 'via': via, 'amp': 'complex'}, acc, arg['seed'])
+    for dx in (1e-6, 2e-8, 3e-9):
+        for s in SCALES + [1.004, 0.9995]:
+            for via in ('rescale', 'resample'):
+                chk({'kind': 'resample', 'shape': arg['shape'], 'seg': 'mono', 'scale': s, 'via': via, 'dx': dx}, acc, arg['seed'])
+                acc.cls('fine-sampling')
     chk_refuse({'kind': 'refuse'}, acc, arg['seed'])
     sh = tuple(arg['shape'])
     for other in ((sh[0] + 1, sh[1] + 1), (sh[0] - 1, sh[1] - 1), (sh[1], sh[0]), (sh[0] + 1, sh[1])):
@@ -268,7 +273,7 @@ def run(tier, seed, acc, procs=None):
         'bounds': {'shapes': shapes(tier), 'scales': SCALES},
         'assumptions': ['"interpolation accuracy" is a bounded numerical statement: tolerances are 10x above the spline noise measured on '
                         'this alphabet and far below the factor s^2 (power) or s (pixel scale) that a convention error produces'],
-        'require': {'rescale:down': 8, 'rescale:up': 30, 'resample:identity': 4, 'seg:seg2': 40, 'refusals': 1, 'history': 30, 'again': 200, 'seg:intmask': 40, 'amp:complex': 40},
+        'require': {'rescale:down': 8, 'rescale:up': 30, 'resample:identity': 4, 'seg:seg2': 40, 'refusals': 1, 'history': 30, 'again': 200, 'seg:intmask': 40, 'amp:complex': 40, 'fine-sampling': 100},
     }
 
 
